@@ -33,6 +33,31 @@ def _places_of_stmt(s):
     return ps
 
 
+_RS = {}
+
+
+def read_state_adt(crate):
+    """The struct shared with libyaml's read callback through a raw pointer: the local struct that holds the
+    bounce vector and the stashed io::Error (recognised by its field types, not by its name)."""
+    k = id(crate)
+    if k not in _RS:
+        cands = []
+        for p_, a in crate.adts.items():
+            if a["crate"] != "xt" or a["kind"] != "struct":
+                continue
+            tys = [f["ty"] for f in a["variants"][0]["fields"]]
+            if "std::vec::Vec<u8>" in tys and "std::option::Option<std::io::Error>" in tys:
+                cands.append(p_)
+        _RS[k] = cands[0] if len(cands) == 1 else None
+    return _RS[k]
+
+
+def _role_ty(crate, ty):
+    """Type string with the read-state struct's path replaced by a role token (rename-proof table keys)."""
+    rs = read_state_adt(crate)
+    return ty.replace(rs, "<read-state>") if rs else ty
+
+
 def inventory(crate):
     """{function: {op: count}} of user-written unsafe operations (macro expansions of core's
     formatting machinery and Box-deref lowerings excluded)."""
@@ -55,7 +80,7 @@ def inventory(crate):
                         if e["k"] == "deref" and e.get("raw"):
                             if i == 0 and _is_box_deref(b, p):
                                 continue
-                            add("deref " + e["of"])
+                            add("deref " + _role_ty(b.crate, e["of"]))
             t = blk["term"]
             if t["k"] == "call" and not t.get("exp"):
                 f = fn_of(t)
@@ -65,7 +90,7 @@ def inventory(crate):
                     if a.get("k") in ("copy", "move"):
                         for i, e in enumerate(a["p"]["pr"]):
                             if e["k"] == "deref" and e.get("raw") and not (i == 0 and _is_box_deref(b, a["p"])):
-                                add("deref " + e["of"])
+                                add("deref " + _role_ty(b.crate, e["of"]))
             for s in blk["stmts"]:
                 if s["k"] == "assign" and s["rv"]["k"] == "cast" and s["rv"]["cast"] == "Transmute" and not s.get("exp"):
                     # debug builds add pointer-alignment checks that transmute pointers to usize: internal
@@ -234,7 +259,7 @@ def r17_2(ctx):
     for bi in sorted(cb.reach()):
         for s in cb.blocks[bi]["stmts"]:
             for p in _places_of_stmt(s):
-                if p["pr"] and p["pr"][0]["k"] == "deref" and p["pr"][0].get("raw") and "ReadState" in p["pr"][0]["of"]:
+                if p["pr"] and p["pr"][0]["k"] == "deref" and p["pr"][0].get("raw") and (read_state_adt(lib) or "?") in p["pr"][0]["of"]:
                     tr = trace(cb, {"k": "copy", "p": {"l": p["l"], "pr": []}}, passthrough_extra=("cast",))
                     if tr.origin == ("arg", 1):
                         ok = 1 in nulls and cb.edge_dominates(nulls[1][0], nulls[1][1], nulls[1][2], bi)
@@ -331,7 +356,7 @@ def r17_4(ctx):
 def r17_5(ctx):
     lib = ctx.lib
     inv = inventory(lib)
-    holders = {fn: ops for fn, ops in inv.items() if any(op.startswith("deref *mut") and "ReadState" in op for op in ops)}
+    holders = {fn: ops for fn, ops in inv.items() if any(op.startswith("deref *mut") and "<read-state>" in op for op in ops)}
     cb = _callback(lib)
     others = [fn for fn in holders if fn != cb.id]
     ok = len(others) == 1 and lib.by_id[others[0]].local_ty(1).startswith("&mut ") and lib.by_id[others[0]].local_ty(0).startswith("&mut ")
